@@ -490,6 +490,9 @@ func observeWalk(e px.Type) (o walkObs) {
 	})
 	if crash != "" {
 		o.Visits = "WCrash"
+	} else if len(evs) > 5000 {
+		// far beyond any graph of the generators (the largest makes 400 visits): only the number is compared
+		o.Visits = "(WMany " + lib.GN(uint64(len(evs))) + ")"
 	} else {
 		o.Visits = "(WVisits " + lib.GList(evs, "ev") + ")"
 	}
@@ -726,6 +729,8 @@ type aliasRunner struct {
 	deadline time.Duration
 	hangs    int
 	minHang  int // the smallest graph (number of aliases) that did not come back
+	slow     int // answers that took more than half a second (the unchanged library: none)
+	minSlow  int
 }
 
 func (ar *aliasRunner) close() {
@@ -742,8 +747,15 @@ func (ar *aliasRunner) run(res *lib.Result, r *aReq) *aReply {
 		ar.child = startAChild()
 	}
 	res.Evaluations++
+	t0 := time.Now()
 	rep, failure, stage := ar.child.ask(r, ar.deadline)
 	if failure == "" {
+		if time.Since(t0) > 500*time.Millisecond {
+			ar.slow++
+			if n := len(r.G.Bodies); ar.minSlow == 0 || n < ar.minSlow {
+				ar.minSlow = n
+			}
+		}
 		for _, v := range rep.Violations {
 			res.Violate(v)
 		}
@@ -799,6 +811,12 @@ func runAlias(cfg *lib.Config, res *lib.Result, rng *lib.Rng, u *lat.Universe) {
 				res.Count("galias.skipped-after-hangs")
 				continue
 			}
+			if ar.slow >= 6 && len(g.Bodies) >= ar.minSlow && ri > 0 {
+				// the calls have become slow on graphs of this size: one actual type per graph is enough to
+				// find the size from which they do not return
+				res.Count("galias.skipped-slow")
+				continue
+			}
 			rep := ar.run(res, r)
 			if rep == nil {
 				continue
@@ -828,7 +846,7 @@ func runAlias(cfg *lib.Config, res *lib.Result, rng *lib.Rng, u *lat.Universe) {
 			}
 			// the walk is the same for every actual type: two cases per graph (a scalar and the deepest
 			// description), all of them for the small graphs
-			if rep.Case != "" && (ri == 0 || ri == 3 || len(g.Bodies) <= 3 || r.Act == "twin-resolved") {
+			if rep.Case != "" && (ri == 0 || ri == 3 || len(g.Bodies) <= 2 || r.Act == "twin-resolved") {
 				cf.Add(rep.Case, r.input())
 			}
 			if gi%97 == 5 && ri == 2 {
@@ -873,7 +891,14 @@ func runAlias(cfg *lib.Config, res *lib.Result, rng *lib.Rng, u *lat.Universe) {
 			inProc(e, xInput("xdesc", s, xl(bin)))
 		}
 	}
-	res.CorrFiles = append(res.CorrFiles, cf.WriteTo(cfg.Out, "cases_walk"))
+	// two files: the driver evaluates them in parallel
+	half := [2]*lib.CasesFile{newWalkCases(), newWalkCases()}
+	for i := range cf.Cases {
+		half[i%2].Add(cf.Cases[i], cf.Inputs[i])
+	}
+	for i, h := range half {
+		res.CorrFiles = append(res.CorrFiles, h.WriteTo(cfg.Out, fmt.Sprintf("cases_walk_%d", i)))
+	}
 }
 
 // replayAlias replays one recorded alias-graph input, in a child under the deadline
